@@ -83,6 +83,17 @@ Theorem C13_set_neg_example :
     /\ read σ' (NLocal 1) = Some (VInt (-5)%Z false) /\ read σ' (NLocal 0) = Some (VInt 5 false).
 Proof. exact set_neg_example. Qed.
 
+(* the same through every cell-returning shape: -(if(true, +var.v0, 3)) *)
+Theorem C13_set_neg_shapes_example :
+  exists σ', exec repaired std_ops [] 10 false (SSet (NLocal 1) AEq shaped_neg) σ_ab = OK (ONorm, σ')
+    /\ read σ' (NLocal 1) = Some (VInt (-5)%Z false) /\ read σ' (NLocal 0) = Some (VInt 5 false).
+Proof. exact set_neg_shapes_example. Qed.
+
+Theorem C13_neg_shapes_need_copy :
+  exists l σ', eval original std_ops [] 10 lvar_mode shaped_neg σ_ab = OK (l, σ') /\
+               read σ' (NLocal 0) <> read σ_ab (NLocal 0).
+Proof. exact neg_in_place_shapes_refutes. Qed.
+
 Theorem C13_call_example :
   exists σ', exec repaired std_ops prog_f0 10 false (SCall 0 [EVar (NLocal 0)]) σ_ab = OK (ONorm, σ')
     /\ read σ' (NLocal 0) = Some (VInt 5 false) /\ length (heap σ') = 5.
@@ -112,6 +123,8 @@ Print Assumptions C13_args_by_value.
 Print Assumptions C13_params_fresh.
 Print Assumptions C13_reachable_wf.
 Print Assumptions C13_set_neg_example.
+Print Assumptions C13_set_neg_shapes_example.
+Print Assumptions C13_neg_shapes_need_copy.
 Print Assumptions C13_call_example.
 Print Assumptions C13_eval_frame_needs_neg_copy.
 Print Assumptions C13_call_frame_needs_param_copy.
